@@ -13,7 +13,7 @@ CONSTANTS
   MaxCtr = 1
   LoadCap = 2
   MaxReq = 4
-  CmdsOf <- C11Cmds3
+  CmdsOf <- C11Cmds4
   Export = TRUE
 SPECIFICATION Spec
 INVARIANT TypeOK
